@@ -131,6 +131,52 @@ func (g *Gen) Prelude() [][]string {
 	return out
 }
 
+// Staleness returns a scripted opening for programme number pn (every third programme): an aggregate is built, EVERY reading
+// command of its family is issued (whatever an implementation caches next to the data - a member list, a rank index, a
+// cursor - is now filled), one element is replaced by another WITHOUT a change of size or through an in-place rewrite, and
+// every reader is issued again. A cache that is refreshed by a size test, a version that an in-place path forgets to bump,
+// or a remembered position shows as a reply the data no longer supports.
+func (g *Gen) Staleness(pn int) [][]string {
+	if pn%3 != 0 {
+		return nil
+	}
+	k := "stale1"
+	v := pn / 3
+	var build, readers, replace [][]string
+	switch g.Family {
+	case "hash":
+		build = [][]string{{"hset", k, "a", "1", "b", "2", "c", "3"}}
+		readers = [][]string{{"hrandfield", k, "10"}, {"hrandfield", k, "-3", "withvalues"}, {"hkeys", k}, {"hvals", k}, {"hgetall", k}, {"hlen", k}, {"hmget", k, "a", "d"}, {"hexists", k, "a"}, {"hstrlen", k, "a"}}
+		replace = [][][]string{{{"hdel", k, "a"}, {"hset", k, "d", "4"}}, {{"hset", k, "a", "9"}}, {{"hdel", k, "a", "b"}, {"hset", k, "d", "4", "e", "5"}}, {{"hincrby", k, "a", "5"}}}[v%4]
+	case "set":
+		build = [][]string{{"sadd", k, "a", "b", "c"}}
+		readers = [][]string{{"smembers", k}, {"scard", k}, {"sismember", k, "a"}, {"sismember", k, "d"}, {"sunion", k}, {"sinter", k}, {"sdiff", k}}
+		replace = [][][]string{{{"srem", k, "a"}, {"sadd", k, "d"}}, {{"smove", k, "stale2", "a"}, {"sadd", k, "d"}}, {{"srem", k, "a", "b"}, {"sadd", k, "d", "e"}}}[v%3]
+	case "zset":
+		build = [][]string{{"zadd", k, "1", "a", "1", "b", "2", "c", "3", "d"}}
+		readers = [][]string{{"zrange", k, "0", "-1", "withscores"}, {"zrank", k, "a"}, {"zrank", k, "c"}, {"zrank", k, "d"}, {"zrank", k, "e"}}
+		replace = [][][]string{{{"zrem", k, "a"}}, {{"zrem", k, "a"}, {"zadd", k, "1", "e"}}, {{"zadd", k, "5", "a"}}, {{"zadd", k, "incr", "2", "b"}}, {{"zrem", k, "c"}, {"zadd", k, "2", "e"}}}[v%5]
+	case "list", "listdeep":
+		build = [][]string{{"rpush", k, "a", "b", "c", "d"}}
+		readers = [][]string{{"lrange", k, "0", "-1"}, {"lindex", k, "2"}, {"lindex", k, "-1"}, {"llen", k}, {"lpos", k, "c"}, {"lrange", k, "1", "2"}}
+		replace = [][][]string{{{"lpop", k}, {"rpush", k, "e"}}, {{"lset", k, "2", "x"}}, {{"rpop", k}, {"lpush", k, "e"}}, {{"lrem", k, "1", "b"}, {"rpush", k, "b"}}, {{"lmove", k, k, "left", "right"}}, {{"ltrim", k, "1", "-1"}, {"lpush", k, "z"}}}[v%6]
+	case "string":
+		build = [][]string{{"set", k, "abcd"}}
+		readers = [][]string{{"get", k}, {"strlen", k}, {"getrange", k, "1", "2"}, {"mget", k}}
+		replace = [][][]string{{{"setrange", k, "1", "X"}}, {{"set", k, "wxyz"}}, {{"append", k, ""}}, {{"set", k, "1234"}, {"incr", k}}}[v%4]
+	case "stream", "streamdeep":
+		build = [][]string{{"xadd", k, "1-1", "f", "a"}, {"xadd", k, "2-1", "f", "b"}, {"xadd", k, "3-1", "f", "c"}}
+		readers = [][]string{{"xrange", k, "-", "+"}, {"xrange", k, "2", "3"}, {"xrange", k, "-", "+", "count", "1"}}
+		replace = [][][]string{{{"xadd", k, "maxlen", "3", "4-1", "f", "d"}}, {{"xadd", k, "minid", "2", "4-1", "f", "d"}}}[v%2]
+	default:
+		return nil
+	}
+	out := append([][]string{}, build...)
+	out = append(out, readers...)
+	out = append(out, replace...)
+	return append(out, readers...)
+}
+
 // Aliasing returns a short scripted opening for programme number pn: a value is created by one command, changed through
 // a second key-local command that an implementation may perform in place, then a value is created the same way under
 // ANOTHER key, and both are read. What one key's command does to memory must never show through another key (shared
